@@ -16,6 +16,20 @@ READ_ENV = 'valjean.cambronne.common:read_env'
 # reference or a memo index.
 UNPICKLE_FAILURES = ('EOFError', 'UnpicklingError', 'AttributeError',
                      'ImportError', 'IndexError')
+# other decoders of file content and what they raise on a damaged stream
+DECODERS = {
+    ('zlib', 'decompress'): ('error',),
+    ('zlib', 'decompressobj'): ('error',),
+    ('gzip', 'decompress'): ('OSError', 'EOFError', 'error'),
+    ('bz2', 'decompress'): ('OSError', 'ValueError'),
+    ('lzma', 'decompress'): ('LZMAError',),
+    ('json', 'loads'): ('ValueError',),
+    ('json', 'load'): ('ValueError',),
+    ('base64', 'b64decode'): ('ValueError',),
+    ('binascii', 'unhexlify'): ('ValueError',),
+    ('struct', 'unpack'): ('error',),
+    ('marshal', 'loads'): ('ValueError', 'EOFError', 'TypeError'),
+}
 _HIER = {'UnpicklingError': ('PickleError', 'Exception'),
          'PickleError': ('Exception',),
          'PicklingError': ('PickleError', 'Exception')}
@@ -242,6 +256,35 @@ def _check_reader_accepts_all(ctx, sites):
                        'every invocation')
 
 
+def _protection(chain, func, call):
+    '''Try statements protecting the call: in its own function (outer
+    functions of a nested def included through their call site) and at each
+    call site of the chain.  List of (FuncInfo, Try node).'''
+    protected_by = []
+    hops = [(func, call)] + list(reversed(chain))
+    # nested def: the call site of the nested function in its parent
+    cur = func
+    while cur.parent is not None:
+        for sub in calls_in(cur.parent.node):
+            if isinstance(sub.func, ast.Name) and \
+                    sub.func.id == cur.name:
+                hops.insert(1, (cur.parent, sub))
+        cur = cur.parent
+    for hfunc, hcall in hops:
+        parents = enclosing_chain(hfunc.node)
+        node = hcall
+        while True:
+            par = parents.get(id(node))
+            if par is None:
+                break
+            if isinstance(par, ast.Try) and any(
+                    node is s or node in list(ast.walk(s))
+                    for s in par.body):
+                protected_by.append((hfunc, par))
+            node = par
+    return protected_by
+
+
 def check_exc_cover(ctx):
     program = ctx.program
     start = program.func(READ_ENV)
@@ -255,31 +298,7 @@ def check_exc_cover(ctx):
             continue
         done.add(id(call))
         program.consulted.add(func.module.relpath)
-        # handlers protecting the call: in its own function (outer
-        # functions of a nested def included through their call site) and
-        # at each call site of the chain
-        protected_by = []      # list of (FuncInfo, Try node)
-        hops = [(func, call)] + list(reversed(chain))
-        # nested def: the call site of the nested function in its parent
-        cur = func
-        while cur.parent is not None:
-            for sub in calls_in(cur.parent.node):
-                if isinstance(sub.func, ast.Name) and \
-                        sub.func.id == cur.name:
-                    hops.insert(1, (cur.parent, sub))
-            cur = cur.parent
-        for hfunc, hcall in hops:
-            parents = enclosing_chain(hfunc.node)
-            node = hcall
-            while True:
-                par = parents.get(id(node))
-                if par is None:
-                    break
-                if isinstance(par, ast.Try) and any(
-                        node is s or node in list(ast.walk(s))
-                        for s in par.body):
-                    protected_by.append((hfunc, par))
-                node = par
+        protected_by = _protection(chain, func, call)
         where = func.where(call)
         for cls_ in UNPICKLE_FAILURES:
             hit = None
@@ -313,6 +332,31 @@ def check_exc_cover(ctx):
             ctx.decide('EXC-COVER', func, f'{txt(call)} covers {cls_}',
                        bad is None, at=hfunc.where(hdl),
                        detail=bad and f'handler {bad}')
+        # other decoders applied to the content of the file on the way
+        for other in calls_in(func.node, include_nested_defs=True):
+            key = (dotted(receiver(other)) if receiver(other) is not None
+                   else None, call_name(other))
+            if key not in DECODERS:
+                continue
+            guard = _protection(chain, func, other)
+            for cls_ in DECODERS[key]:
+                covered = any(catches(handler_names(h), cls_) or (
+                    cls_ == 'error' and any(
+                        txt(e) == f'{key[0]}.error' for e in (
+                            h.type.elts if isinstance(h.type, ast.Tuple)
+                            else [h.type]) if e is not None))
+                              for _, t in guard for h in t.handlers)
+                ctx.decide(
+                    'EXC-COVER', func,
+                    f'{txt(other)[:40]} covers {key[0]}.{cls_}'
+                    if cls_ in ('error', 'LZMAError') else
+                    f'{txt(other)[:40]} covers {cls_}', covered,
+                    at=func.where(other),
+                    detail=None if covered else
+                    f'a truncated or damaged file makes {key[0]}.{key[1]} '
+                    f'raise {cls_}, which is not caught on the way to '
+                    f'read_env: the next run aborts instead of treating '
+                    f'the task as not done')
         # the open() of the file: OSError covered
         hit = any(catches(handler_names(h), 'OSError')
                   for _, t in protected_by for h in t.handlers)
@@ -512,6 +556,43 @@ def check_read_path(ctx):
                    'special characters of the root / file name and hidden '
                    'task directories make intact entries invisible')
     ctx.floor('READ-PATH', n, 1, 'from_file call in read_env')
+    # the file read is the file written: <directory of the task> / filename,
+    # `filename` being the parameter both functions receive
+    defs = {}
+    for node in walk_local(func.node):
+        if isinstance(node, ast.Assign) and len(node.targets) == 1 and \
+                isinstance(node.targets[0], ast.Name):
+            defs.setdefault(node.targets[0].id, []).append(node.value)
+
+    def last_component(expr, depth=0):
+        if depth > 4:
+            return None
+        if isinstance(expr, ast.Name) and len(defs.get(expr.id, [])) == 1:
+            return last_component(defs[expr.id][0], depth + 1)
+        if isinstance(expr, ast.Call) and call_name(expr) in (
+                'str', 'fspath', 'Path') and len(expr.args) == 1:
+            return last_component(expr.args[0], depth + 1)
+        if isinstance(expr, ast.Call) and call_name(expr) in (
+                'join', 'joinpath') and expr.args:
+            return last_component(expr.args[-1], depth + 1)
+        if isinstance(expr, ast.BinOp) and isinstance(expr.op, ast.Div):
+            return expr.right
+        return expr
+    for call in calls_in(func.node):
+        if call_name(call) != 'from_file' or not call.args:
+            continue
+        last = last_component(call.args[0])
+        ok = isinstance(last, ast.Name) and last.id in func.params and \
+            last.id == 'filename'
+        ctx.decide('READ-PATH', func,
+                   f'read_env: {txt(call)[:60]} reads <task directory> / '
+                   f'filename (last component: {txt(last)[:30]})', ok,
+                   at=func.where(call),
+                   detail=None if ok else
+                   'an entry is taken from a file other than the one '
+                   'write_env wrote last for the task (a backup, a '
+                   'side file): a task that is not DONE any more comes back '
+                   'DONE with the entry of an earlier run')
 
 
 # --------------------------------------------------------- READ-NORAISE ---
